@@ -69,18 +69,19 @@ var c17AreaTags = [][2]string{{"building", "yes"}, {"landuse", "forest"}, {"amen
 	{"leisure", "park"}, {"natural", "water"}, {"area", "yes"}}
 
 type c17DS struct {
-	r       *gen.R
-	o       *osm.OSM
-	area    map[osm.WayID]bool // ground truth: generated as an area way
-	mpWay   map[osm.WayID]bool // ring piece of a generated multipolygon
-	usedN   map[int64]bool
-	usedW   map[int64]bool
-	usedR   map[int64]bool
-	missing []int64 // node ids referenced but never present
-	coords  []c17Pt
-	wayCls  map[string]bool
-	relCls  map[string]bool
-	label   string
+	r            *gen.R
+	o            *osm.OSM
+	area         map[osm.WayID]bool // ground truth: generated as an area way
+	mpWay        map[osm.WayID]bool // ring piece of a generated multipolygon
+	usedN        map[int64]bool
+	usedW        map[int64]bool
+	usedR        map[int64]bool
+	missing      []int64 // node ids referenced but never present
+	coords       []c17Pt
+	wayCls       map[string]bool
+	relCls       map[string]bool
+	label        string
+	routeWaysMax int // most member ways of a generated network route
 }
 
 func c17NewDS(seed uint64, label string) *c17DS {
@@ -610,6 +611,115 @@ func (d *c17DS) chainRoute() {
 	d.addRelation(d.routeTags(), ms)
 }
 
+// networkRoute: a route over 2..maxWays fresh member ways that form one or more sections:
+// paths, closed loops, branches off an earlier section's end node (shared end nodes, Y and
+// lollipop shapes). Member order is fully shuffled and every piece is reversed at random, so
+// the joiner has to find its matches anywhere in its work list.
+func (d *c17DS) networkRoute(maxWays int) {
+	r := d.r
+	total := r.Range(2, maxWays)
+	if maxWays >= 8 && r.Bool() {
+		total = r.Range(7, maxWays) // long member lists are the point of this class
+	}
+	seen := map[c17Pt]bool{}
+	nodeTags := []string{"none", "none", "none", "none", "boring", "interesting"}
+	fresh := func() int64 {
+		n := d.addNode("loc", nodeTags[r.Intn(len(nodeTags))])
+		for seen[c17Pt{n.Lon, n.Lat}] {
+			p := d.newCoord()
+			n.Lon, n.Lat = p[0], p[1]
+		}
+		seen[c17Pt{n.Lon, n.Lat}] = true
+		return int64(n.ID)
+	}
+	var pieces [][]int64
+	var ends []int64 // end nodes of earlier pieces: attachment points for later sections
+	sections, shapes := 0, map[string]bool{}
+	for remaining := total; remaining > 0; sections++ {
+		k := r.Range(1, remaining)
+		if sections >= 3 || r.Chance(0.35) {
+			k = remaining
+		}
+		remaining -= k
+		start := int64(0)
+		attached := len(ends) > 0 && r.Chance(0.5)
+		if attached {
+			start = ends[r.Intn(len(ends))]
+			shapes["branch"] = true
+		} else {
+			start = fresh()
+		}
+		loop := r.Chance(0.3)
+		cur := start
+		for i := 0; i < k; i++ {
+			piece := []int64{cur}
+			edges := r.Range(1, 3)
+			if loop && k == 1 {
+				edges = r.Range(3, 4)
+			}
+			for e := 0; e < edges; e++ {
+				if loop && i == k-1 && e == edges-1 {
+					piece = append(piece, start)
+				} else {
+					piece = append(piece, fresh())
+				}
+			}
+			cur = piece[len(piece)-1]
+			ends = append(ends, cur)
+			pieces = append(pieces, piece)
+		}
+		if loop {
+			shapes["loop"] = true
+		} else {
+			shapes["path"] = true
+		}
+	}
+	if sections > 1 {
+		shapes["multi-section"] = true
+	}
+	wayTag := r.PickS("none", "none", "none", "boring", "interesting")
+	var ms osm.Members
+	for _, p := range pieces {
+		if r.Bool() {
+			for i, j := 0, len(p)-1; i < j; i, j = i+1, j-1 {
+				p[i], p[j] = p[j], p[i]
+			}
+		}
+		w := d.addWay(p, d.tags(wayTag, true))
+		if r.Chance(0.05) {
+			d.inline(w, true)
+		}
+		ms = append(ms, osm.Member{Type: osm.TypeWay, Ref: int64(w.ID), Role: r.PickS("", "", "forward", "backward")})
+	}
+	if r.Chance(0.1) {
+		ms = append(ms, ms[r.Intn(len(ms))]) // a street used in both directions
+		d.relCls["dup-member"] = true
+	}
+	if r.Chance(0.1) {
+		ms = append(ms, d.wayMember(1))
+	}
+	if r.Chance(0.3) {
+		ms = append(ms, osm.Member{Type: osm.TypeNode, Ref: ends[r.Intn(len(ends))], Role: "stop"})
+		d.relCls["node-member"] = true
+	}
+	r.Shuffle(len(ms), func(i, j int) { ms[i], ms[j] = ms[j], ms[i] })
+	d.addRelation(d.routeTags(), ms)
+	for sh := range shapes {
+		d.relCls["route-net-"+sh] = true
+	}
+	switch {
+	case len(pieces) >= 17:
+		d.relCls["route-net-17+ways"] = true
+	case len(pieces) >= 7:
+		d.relCls["route-net-7+ways"] = true
+	default:
+		d.relCls["route-net-<7ways"] = true
+	}
+	if len(pieces) > d.routeWaysMax {
+		d.routeWaysMax = len(pieces)
+	}
+}
+
 // multipolygon: one simple valid multipolygon over fresh nodes and ways: a star-shaped outer
 // ring (one closed way or two open ways) and optionally one star-shaped hole well inside it.
 func (d *c17DS) multipolygon() {
@@ -766,7 +876,8 @@ func (d *c17DS) otherRelation() {
 }
 
 // c17Random generates one data set. size 0 = tiny, 1 = small, 2 = medium.
-func c17Random(seed uint64, size int) *c17DS {
+// maxRouteWays bounds the member ways of network routes; routes > 0 forces that many of them.
+func c17Random(seed uint64, size, maxRouteWays, routes int) *c17DS {
 	d := c17NewDS(seed, "random")
 	r := d.r
 	nN := [][2]int{{0, 5}, {3, 12}, {10, 30}}[size]
@@ -789,15 +900,20 @@ func c17Random(seed uint64, size int) *c17DS {
 	}
 	for i, n := 0, r.Range(nR[0], nR[1]); i < n; i++ {
 		switch x := r.Intn(100); {
-		case x < 28:
+		case x < 25:
 			d.randomRoute()
-		case x < 50:
+		case x < 40:
 			d.chainRoute()
+		case x < 52:
+			d.networkRoute(maxRouteWays)
 		case x < 75:
 			d.multipolygon()
 		default:
 			d.otherRelation()
 		}
+	}
+	for i := 0; i < routes; i++ {
+		d.networkRoute(maxRouteWays)
 	}
 	o := d.o
 	r.Shuffle(len(o.Nodes), func(i, j int) { o.Nodes[i], o.Nodes[j] = o.Nodes[j], o.Nodes[i] })
@@ -2040,6 +2156,9 @@ func c17Check(res *fw.Result, d *c17DS) {
 		}
 	}
 
+	if d.routeWaysMax > 0 {
+		res.SetMax("route_member_ways_max", int64(d.routeWaysMax))
+	}
 	var base []map[string]any
 	var baseJS []byte
 	for mask := 0; mask < 16; mask++ {
@@ -2119,7 +2238,11 @@ func c17Exec(c fw.Case) *fw.Result {
 	res := fw.NewResult()
 	switch c.Kind {
 	case "random":
-		d := c17Random(c.Seed, int(c.Int("size")))
+		rw := int(c.Int("rw"))
+		if rw < 2 {
+			rw = 16
+		}
+		d := c17Random(c.Seed, int(c.Int("size")), rw, int(c.Int("routes")))
 		c17Check(res, d)
 	case "nodematrix":
 		ds := c17NodeMatrix()
@@ -2136,7 +2259,7 @@ func init() {
 		ID:    "C17",
 		Level: "exploration",
 		Rule: "PRNG data sets (nodes located / without location / at the origin x untagged / uninteresting-only / interesting / mixed tags; ways open, area, closed non-area, missing nodes, shared and repeated nodes, one-node, empty, own way-node coordinates; " +
-			"relations route (arbitrary members, simple chains and loops), simple valid multipolygon/boundary (one or two outer ways, optional hole, old style), other types; node, way, relation and missing members), plus the enumerated node-rule matrix; " +
+			"relations route (arbitrary members, simple chains and loops, networks of 2..16 (thorough 30) shuffled and randomly reversed member ways in several sections with branches, shared end nodes and loops), simple valid multipolygon/boundary (one or two outer ways, optional hole, old style), other types; node, way, relation and missing members), plus the enumerated node-rule matrix; " +
 			"every data set is converted under all 16 option sets, three times each. One evaluation = one (data set, option set). " +
 			"A signature is (element kinds present, node classes, way classes, relation classes); distinct_nontrivial counts distinct signatures.",
 		Assumptions: []string{
@@ -2150,9 +2273,9 @@ func init() {
 			"area-ness of generated ways uses clear rows of the published polygon-features table only (building, landuse, amenity, leisure, natural=water, area=yes vs. highway=residential, natural=coastline, barrier, area=no, no tags); the table itself is C18",
 		},
 		Cases: func(tier string, seed uint64) []fw.Case {
-			n := 400
+			n, rw := 400, int64(16)
 			if tier == "thorough" {
-				n = 10000
+				n, rw = 10000, 30
 			}
 			cs := []fw.Case{{Kind: "nodematrix", Seed: 1}}
 			for i := 0; i < n; i++ {
@@ -2163,7 +2286,12 @@ func init() {
 				case 9:
 					size = 2
 				}
-				cs = append(cs, fw.Case{Kind: "random", Seed: gen.Sub(seed, "c17", i), P: map[string]int64{"size": size}})
+				// every fourth data set carries one or two long, shuffled network routes
+				routes := int64(0)
+				if i%4 == 3 {
+					routes = 1 + int64(i/4%2)
+				}
+				cs = append(cs, fw.Case{Kind: "random", Seed: gen.Sub(seed, "c17", i), P: map[string]int64{"size": size, "rw": rw, "routes": routes}})
 			}
 			return fw.Number(cs)
 		},
